@@ -165,7 +165,7 @@ func c16Assembler(c *Ctx, r *Report) {
 						okF = true
 					}
 					for _, c2 := range an.calls {
-						if c2.frame == fr && c2.method == "FunctionCode" {
+						if c2.frame.within(fr) && c2.method == "FunctionCode" {
 							if ri, ok := c2.res.(AInt); ok && ri.a.equal(fi.a) {
 								okF = true
 							}
